@@ -164,7 +164,10 @@ class Sim:
             if t is not None:
                 return t
         t = getattr(obj, "_sim_tag", None)
-        return t if t is not None else self.constructing
+        if t is not None:
+            return t
+        c = getattr(self.tl, "constructing", None)
+        return c if c is not None else self.constructing
 
     def _machine(self, tag, obj, loc):
         m = loc.get("machine")
@@ -240,9 +243,13 @@ class Sim:
         # truthy / falsy values of other types (guards are compared on bool(value))
         return (1, "x", [0], (None,))[bits % 4] if bit else (0, "", [], None)[bits % 4]
 
+    def cur_epoch(self):
+        e = getattr(self.tl, "epoch", None)
+        return self.epoch if e is None else e
+
     def _begin(self, cbid, obj, loc, grp):
         tag = self.tag_of(obj)
-        epoch = self.epoch
+        epoch = self.cur_epoch()
         stack = getattr(self.tl, "stack", None)
         dp = len(stack) if stack else 0
         key = (tag, cbid, epoch, dp)
@@ -378,7 +385,7 @@ class Sim:
                     self.stats["delays"] += 1
                     self.stats["vdelay"] += pre
                     await asyncio.sleep(pre)
-                stale = (tag, epoch) in self.failed or epoch != self.epoch
+                stale = (tag, epoch) in self.failed or epoch != self.cur_epoch()
                 if stale:
                     self.stats["orphans"] += 1
                 sends = rule.get("sends")
